@@ -99,28 +99,16 @@ def modelTagsPart (f : ElfFile) (ifc : FileIfc) (d : Dyn) : List (String × Json
   [("tags", resJson (fun ts => Json.arr (ts.map fun t => tagJson t.entry t.attr).toArray) (iterTags elfEnv f.S f.data ifc d none)),
    ("num_tags", resJson jN (numTags elfEnv f.S f.data ifc d))]
 
-/-- `for x in it: if isinstance(x, K): return x` over a lazily built sequence -/
-def findFirst {α : Type} (get : Nat → R α) (p : α → Bool) : Nat → Nat → R (Option α)
-  | 0, _ => pure none
-  | k+1, i => do
-    let x ← get i
-    if p x then return some x else findFirst get p k (i + 1)
-
 def modelSecView (f : ElfFile) : R Json := do
-  let n ← numSections elfEnv f.S f.data f.header
-  match ← findFirst (getSection elfEnv f.S f.data f.header f.shstr) (·.1 == "DynamicSection") n 0 with
+  match ← dynamicSection elfEnv f with
   | none => return Json.null
-  | some (_, _, sh) =>
-    let d ← dynOfSection elfEnv f sh
-    return Json.mkObj (modelTagsPart f (cachedIfc f) d)
+  | some d => return Json.mkObj (modelTagsPart f (cachedIfc f) d)
 
 def modelSegView (f : ElfFile) (names : List Bytes) (tagq : List String) : R Json := do
   let iterSegs := iterSegments elfEnv f.S f.data f.header f.shstr
-  let n ← numSegments elfEnv f.S f.data f.header f.shstr
-  match ← findFirst (getSegment elfEnv f.S f.data f.header f.shstr) (·.1 == "DynamicSegment") n 0 with
+  match ← dynamicSegment elfEnv f with
   | none => return Json.null
-  | some (_, ph) =>
-    let d ← dynOfSegment elfEnv f ph
+  | some d =>
     let ifc := cachedIfc f
     let S := f.S
     let data := f.data
@@ -192,7 +180,10 @@ def handle (req : Json) : Except String Json := do
       match d.assemble full with
       | none => Json.mkObj [("wf", Json.bool false), ("why", "not encodable")]
       | some bytes =>
-        Json.mkObj [("wf", Json.bool (d.wf elfEnv full)), ("wf_count", Json.bool (hashOk d)), ("bytes", jHexOf bytes),
+        Json.mkObj [("wf", Json.bool (d.wf elfEnv full)), ("wf_count", Json.bool (hashOk d)),
+                    -- the container is a well-formed ELF description in the sense of C01: together with `wf` (both
+                    -- layouts) this is `DynDesc.WF`, the hypothesis of `segment_view_eq_section_view`
+                    ("wf_c01", Json.bool ((d.container full).wf elfEnv)), ("bytes", jHexOf bytes),
                     ("expect", specObserve d full names tagq), ("model", modelObserve bytes names tagq)]
     return Json.mkObj [("full", one true), ("stripped", one false)]
   | "raw" =>
